@@ -419,6 +419,7 @@ fn run_loop(n_opt: Option<u32>, s: u32, t: usize, round_cut: u32, limits: bool) 
         kani::cover!(off || !can_exceed || rounds * tt >= n + tt); // continued by min_time after n samples
         kani::cover!(off || (min_p > max_p && rounds >= 1));
         kani::cover!(off || (skip == Some(true) && rounds >= 2));
+        kani::cover!(!(zero_cfg && limits) || (min_p > 0 && max_p > min_p));
     }
     std::mem::forget(ctx);
 }
@@ -527,6 +528,61 @@ loop_stubs! {
         let which: bool = kani::any();
         if which { run_loop(Some(0), 1, 1, 1, false) } else { run_loop(Some(1), 0, 1, 1, false) }
     }
+}
+
+// @cell props=C03 tier=quick kind=core timeout=900 mem=12 cls=K
+// @desc n=0 (s=1) and s=0 (n=1) with min_time / max_time / skip_ext_time symbolic (a positive min_time included): still
+// @desc never called
+loop_stubs! {
+    #[kani::unwind(6)]
+    fn c03_counts_zero_with_limits() {
+        let which: bool = kani::any();
+        if which { run_loop(Some(0), 1, 1, 1, true) } else { run_loop(Some(1), 0, 1, 1, true) }
+    }
+}
+
+/// n = 0 outside the plain collecting mode: test mode, and bench mode with automatic sample size.
+fn run_zero_other_modes() {
+    unsafe { G.round_cut = 1 };
+    let test: bool = kani::any();
+    let sh = shared(if test { Action::Test } else { Action::Bench });
+    let s_opt: Option<u32> = if test && kani::any() { Some(kani::any()) } else { None };
+    let min_ns: u32 = kani::any();
+    let options = BenchOptions {
+        sample_count: Some(0),
+        sample_size: s_opt,
+        min_time: Some(std::time::Duration::from_nanos(min_ns as u64)),
+        ..Default::default()
+    };
+    let mut ctx = BenchContext::new(&sh, &options, NonZeroUsize::MIN);
+    Bencher::new(&mut ctx)
+        .with_inputs(|| unsafe {
+            G.gens += 1;
+            G.next += 1;
+            7u8
+        })
+        .bench_values(|x: u8| unsafe {
+            G.calls += 1;
+            G.sample_calls += 1;
+            x
+        });
+    unsafe {
+        assert_eq!(G.magic, MAGIC);
+        assert_eq!(G.rounds, 0);
+        assert_eq!(G.calls, 0);
+        assert_eq!(G.gens, 0);
+        assert_eq!(ctx.samples.time_samples.len(), 0);
+        kani::cover!(test && min_ns > 0);
+        kani::cover!(!test && min_ns > 0);
+    }
+    std::mem::forget(ctx);
+}
+
+// @cell props=C03 tier=quick kind=core timeout=900 mem=12 cls=K
+// @desc n=0 in test mode (any sample size) and in bench mode with automatic sample size, any min_time: never called
+loop_stubs! {
+    #[kani::unwind(6)]
+    fn c03_zero_count_test_and_tune() { run_zero_other_modes() }
 }
 
 // @cell props=C03 tier=thorough kind=core timeout=2400 mem=16 cls=K
@@ -1019,6 +1075,9 @@ impl Drop for ZstOut {
     fn drop(&mut self) {
         unsafe {
             assert!(G.phase == 2, "zero-sized output dropped inside the timed section");
+            if C.barrier {
+                assert!(G.waits == 3, "drop before every thread took its end timestamp");
+            }
             G.zst_out_drops += 1;
         }
     }
@@ -1028,6 +1087,9 @@ impl Drop for ZstIn {
     fn drop(&mut self) {
         unsafe {
             assert!(G.phase == 2, "zero-sized input dropped inside or before the timed section");
+            if C.barrier {
+                assert!(G.waits == 3, "drop before every thread took its end timestamp");
+            }
             G.zst_in_drops += 1;
         }
     }
@@ -1130,6 +1192,36 @@ mon_stubs! {
             assert!(!G.tls_dirty_at_wait2, "allocation tally not cleared before the second rendezvous");
             assert!(G.waits == 3);
         }
+    }
+}
+
+// @cell props=C08,C01 tier=quick kind=core timeout=2400 mem=20 cls=K ignore_re=write_bytes::<.*(ZstIn|ZstOut)>\|memset.destination.region.writeable
+// @desc zero-sized fast path on T = 2 threads (sequentialised, Barrier::wait observed): bench_refs with a zero-sized
+// @desc input that has a destructor and a plain output, sample size symbolic 1..=2: still three rendezvous per thread
+// @desc and sample, the tally cleared before the second, every input destructor after the third
+mon_stubs! {
+    #[kani::unwind(6)]
+    fn c08_zst_in_drop_plain_out_t2_protocol() {
+        let s: u32 = kani::any();
+        kani::assume(s >= 1 && s <= 2);
+        unsafe { G.round_cut = 2; C.barrier = true; }
+        let sh = shared(Action::Bench);
+        let options = BenchOptions { sample_count: Some(1), sample_size: Some(s), ..Default::default() };
+        let mut ctx = BenchContext::new(&sh, &options, NonZeroUsize::new(2).unwrap());
+        Bencher::new(&mut ctx)
+            .with_inputs(|| unsafe { assert!(G.phase == 0); G.gens += 1; ZstIn })
+            .bench_refs(|_z: &mut ZstIn| unsafe { assert!(G.phase == 1); G.calls += 1; G.sample_calls += 1; 5u8 });
+        unsafe {
+            assert_eq!(G.tasks, 2);
+            assert_eq!(G.gens, 2 * s);
+            assert_eq!(G.calls, 2 * s);
+            assert_eq!(G.zst_in_drops, 2 * s);
+            assert!(!G.tls_dirty_at_wait2, "allocation tally not cleared before the second rendezvous");
+            assert!(G.waits == 3, "a thread did not wait three times in its sample");
+            assert_eq!(G.magic, MAGIC);
+        }
+        kani::cover!(s == 2);
+        std::mem::forget(ctx);
     }
 }
 
